@@ -10,3 +10,7 @@ import SwcVerif.Props.C20
 #print axioms C20.grid_covers
 #print axioms C20.bbox_contains
 #print axioms C20.swept_ends
+#print axioms C20.contained_swept_in_ball
+#print axioms C20.contained_swept_in_ball'
+#print axioms C20.degenerate_edge_is_ball
+#print axioms C20.coincident_is_ball
